@@ -72,6 +72,7 @@ def _chase(m, f, t, at, N):
 
 def run(ctx):  # noqa: C901
     m = ctx.model
+    ctx.rule("R-DEF", "from_bcs_game: the referee draws a constraint uniformly, then a variable of it uniformly")
     ctx.rule("R-EFFECT", "no method of NonlocalGame other than __init__ writes self.* or through an alias of it; helpers do not write their array argument")
     ctx.rule("R-ENUM", "(a) the strategy counter ranges over base**digits of its decoder; (b) the enumerated player's answer depends on the question and the other player best-responds per question; product-game odometers run n**reps steps")
     ctx.rule("R-SDP", "see-saw, non-signalling and NPA programs: every constraint reaches the problem, POVM families are PSD and complete for every question, marginal consistency families present, objective sense")
@@ -583,6 +584,48 @@ def _bcs(ctx, f):
     for rn, facts, t in rets:
         ok = t[0] == "call" and "reps" in repr(t)
         ctx.ob("R-THREAD", f, "reps forwarded to the constructor", ok, "cls(prob, pred, reps)" if ok else "reps not forwarded", rn)
+    # question distribution of a BCS game (Cleve-Mittal): a constraint uniformly at random, then uniformly one of the variables that
+    # occur in it:  pi(j, .) = (1 / #constraints) * dep[j] / sum(dep[j]),  row by row
+    N0 = Normalizer(m, f, inline=False)
+    rows = [n for n in ast.walk(f.node) if isinstance(n, ast.Assign) and isinstance(n.targets[0], ast.Subscript) and isinstance(n.targets[0].value, ast.Name)
+            and n.targets[0].value.id == "prob_mat" and isinstance(n.targets[0].slice, ast.Name)]
+    okd, why = None, "row-wise construction of the distribution not found"
+    if rows:
+        st = rows[0]
+        j = st.targets[0].slice.id
+        loops = [lp for lp in walk_no_nested(f.node) if isinstance(lp, ast.For) and any(x is st for x in ast.walk(lp))]
+        env = {}
+        for lp in loops:
+            for d in ast.walk(lp):
+                if isinstance(d, ast.Assign) and len(d.targets) == 1 and isinstance(d.targets[0], ast.Name):
+                    env[d.targets[0].id] = d.value
+        def _exp(t, depth=0):
+            if t[0] == "n" and t[1] in env and depth < 4:
+                return _exp(N0(env[t[1]]), depth + 1)
+            if isinstance(t, tuple):
+                return tuple(_exp(x, depth) if isinstance(x, tuple) and x and isinstance(x[0], str) else
+                             (tuple(_exp(y, depth) if isinstance(y, tuple) and y and isinstance(y[0], str) else y for y in x) if isinstance(x, tuple) else x) for x in t)
+            return t
+        t = _exp(N0(st.value))
+        dep_j = ("sub", ("n", "dependent_variables"), ("n", j))
+        flat = repr(t)
+        uni = repr(("n", "num_constraints")) in flat and ("'/'" in flat or "Fraction" in flat or "-1" in flat)
+        per_row = repr(dep_j) in flat and ("'sum'" in flat or "numpy.sum" in flat)
+        rng_ok = any(N0(lp.iter) == ("call", "builtins.range", (("n", "num_constraints"),), ()) and isinstance(lp.target, ast.Name) and lp.target.id == j for lp in loops)
+        okd = bool(uni and per_row and rng_ok)
+        why = "pi(j, .) = 1/#constraints * dep[j] / sum(dep[j]) for every constraint j" if okd else \
+            f"row {j} is `{unparse(st.value)[:60]}` -> {show(t)[:90]}: not (uniform constraint) x (uniform variable of that constraint)"
+    else:
+        whole = [n for n in ast.walk(f.node) if isinstance(n, ast.Assign) and len(n.targets) == 1 and isinstance(n.targets[0], ast.Name) and n.targets[0].id == "prob_mat"
+                 and not (isinstance(n.value, ast.Call) and getattr(n.value.func, "attr", "") in ("zeros", "empty", "zeros_like"))]
+        if whole:
+            tw = N0(whole[-1].value)
+            # dep / dep.sum(): uniform over (constraint, variable) PAIRS -- a constraint that mentions more variables is asked more often
+            glob = tw[0] == "/" and tw[1] == ("n", "dependent_variables") and "sum" in repr(tw[2]) and "axis" not in repr(tw[2])
+            if glob:
+                okd, why = False, (f"`{unparse(whole[-1])[:70]}` normalises by the total number of (constraint, variable) pairs: the pair is drawn uniformly, so a constraint "
+                                   "mentioning more variables is asked more often (for constraints of different sizes the game, and its classical value, change)")
+    ctx.ob("R-DEF", f, "BCS question distribution: uniform constraint, then uniform variable of that constraint", okd, why, rows[0] if rows else None, required=okd is not None)
 
 
 def _povm_family(ctx, f, sk, group, roles, q_role, a_role, target_desc, target_pred):
